@@ -668,6 +668,7 @@ def section8():
         "C13": "the re-attach-then-close path of `close_with_error` needs a redesign of how a detached link is re-attached",
         "C14": "`DeliveryFut` would have to learn the link's fate; touches the public error type",
         "C16": "needs either a queue in the link or the cut moved into the session; the common case is repaired (8e61c7a)",
+        "C09": "the receiving link has to account for deliveries it is never handed (delivery-count, the count towards the automatic top-up, the session's record of unsettled ids), on rollback and when a controller disappears: a new path through the link's accounting, which C09's model covers and which would have to be re-verified; found in the last hour of the fourth session",
     }
     for p, k, w in known:
         out.append(f"| {p} | `{k}` | {w} — *{why_key.get(k, why.get(p, ''))}* |")
